@@ -164,6 +164,23 @@ def gen_config(rng, alpha_kinds=("fixed", "single"), allow_fail=True):
     return cfg
 
 
+def add_exit(c, rng):
+    """Let one member of a universe-driven configuration LEAVE the universe at (or a minute after) a close: whatever is held
+    of it is sold at the next rebalance, and from the rebalance after that it is in no allocation record at all."""
+    if c["alpha"] != "single" or c.get("default_dh"):
+        return False
+    members = [a for a, e in c["entry"].items() if e != -1 and e <= c["end"]]
+    if len(members) < 2:
+        return False
+    a = rng.choice(sorted(members))
+    lo = max(c["entry"][a], c["start"])
+    closes = [d * 1440 + 1260 for d in bdays(c["start"] // 1440, c["end"] // 1440) if d * 1440 + 1260 > lo]
+    if len(closes) < 2:
+        return False
+    c["exit"] = {a: rng.choice(closes[:-1]) + rng.choice([0, 1])}
+    return True
+
+
 def gen_zero_units_config(rng):
     """A daily fixed-weight backtest on an account so small, with closes alternating between the cheapest and the dearest
     level, that a weighted asset's target goes 1 unit -> 0 units -> 1 unit: a holding whose target is ZERO UNITS at a
@@ -201,10 +218,11 @@ def cfg_tla(c):
     market = fn(c["market"], lambda bars: fn(dict((int(d), v) for d, v in bars.items()), lambda oc: "<<%d, %d>>" % tuple(oc), q=False))
     return ('[start |-> %d, end |-> %d, burn |-> %d, sched |-> "%s", wd |-> %d, kind |-> "%s", par |-> <<%d, %d>>, '
             'fee |-> [kind |-> "%s", c |-> %d, t |-> %d], cash |-> %d, alpha |-> "%s", weights |-> %s, entry |-> %s, market |-> %s, '
-            'lookback |-> %d, topn |-> %d, risk |-> "%s", rset |-> {%s}]'
+            'lookback |-> %d, topn |-> %d, risk |-> "%s", rset |-> {%s}%s]'
             % (c["start"], c["end"], c["burn"], c["sched"], c["wd"], c["kind"], par.numerator, par.denominator,
                c["fee"]["kind"], c["fee"]["c"], c["fee"]["t"], c["cash"], c["alpha"], fn(c["weights"], str), fn(c["entry"], str), market,
-               c.get("lookback", 0), c.get("topn", 1), c.get("risk", "none"), ", ".join('"%s"' % a for a in c.get("rset", []))))
+               c.get("lookback", 0), c.get("topn", 1), c.get("risk", "none"), ", ".join('"%s"' % a for a in c.get("rset", [])),
+               (", exit |-> " + fn(c["exit"], str)) if c.get("exit") else ""))
 
 
 def cases_module(cfgs):
@@ -212,7 +230,7 @@ def cases_module(cfgs):
 
 
 # ---------------------------------------------------------------------------------------------
-def write_market(dirpath, market, rng=None, adj=None):
+def write_market(dirpath, market, rng=None, adj=None, intfmt=False):
     """CSV files (rows shuffled when rng is given).  Adj Close = Close, so adjusted = raw prices, unless `adj`
     (asset -> day -> adjusted close in mils, 0 = blank cell) says otherwise (two-world runs only: the model is not involved)."""
     import pandas as pd
@@ -228,7 +246,8 @@ def write_market(dirpath, market, rng=None, adj=None):
             fh.write(",".join(cols) + "\n")
             for d, (o, c) in rows:
                 date = (EPOCH + pd.Timedelta(days=d)).strftime("%Y-%m-%d")
-                f = lambda x: "" if x == 0 else repr(x / 1000.0)
+                # intfmt: whole numbers are written the way many vendors write them, without a decimal point ("16", not "16.0")
+                f = lambda x: "" if x == 0 else (str(x // 1000) if intfmt and x % 1000 == 0 else repr(x / 1000.0))
                 cell = {"Date": date, "Open": f(o), "High": f(99000), "Low": f(1000), "Close": f(c), "Adj Close": f(adjmap.get(str(d), c)), "Volume": "1000"}
                 fh.write(",".join(cell[k] for k in cols) + "\n")
 
@@ -312,15 +331,32 @@ def _build_session(c, csv_dir, signals_factory=None, alpha_factory=None, data_so
     from qstrader.data.daily_bar_csv import CSVDailyBarDataSource
     from qstrader.trading.backtest import BacktestTradingSession
     entry = c["entry"]
-    if all(e == 0 for e in entry.values()):
+    if all(e == 0 for e in entry.values()) and not c.get("exit"):
         universe = StaticUniverse([SYM[a] for a in sorted(entry)])
+    elif c.get("exit"):
+        from qstrader.asset.universe.universe import Universe
+
+        class _LeavingUniverse(Universe):
+            """A user-defined universe whose members can leave: member from the entry instant up to, not including, the exit instant."""
+            def __init__(self, spans):
+                self.spans = spans
+
+            def get_assets(self, dt):
+                return [a for a, (t_in, t_out) in self.spans if t_in is not None and dt >= t_in and (t_out is None or dt < t_out)]
+        universe = _LeavingUniverse([(SYM[a], ((None if e == -1 else (ts(c["start"]) if e == 0 else ts(e))),
+                                               (ts(c["exit"][a]) if c["exit"].get(a) else None))) for a, e in sorted(entry.items())])
     else:
-        universe = DynamicUniverse(dict((SYM[a], (None if e == -1 else (ts(c["start"]) if e == 0 else ts(e))))
+        import pandas as pd
+        nodate = None if (c["start"] // 1440) % 2 == 0 else pd.NaT          # "no entry date": None, or pandas' missing date
+        universe = DynamicUniverse(dict((SYM[a], (nodate if e == -1 else (ts(c["start"]) if e == 0 else ts(e))))
                                         for a, e in sorted(entry.items())))
     given_sources = data_sources
     if data_sources is None:
         syms = sorted(c["market"])
-        data_sources = [CSVDailyBarDataSource(csv_dir, Equity, csv_symbols=syms)]
+        if c.get("unadjusted"):
+            data_sources = [CSVDailyBarDataSource(csv_dir, Equity, csv_symbols=syms, adjust_prices=False)]
+        else:
+            data_sources = [CSVDailyBarDataSource(csv_dir, Equity, csv_symbols=syms)]
     dh = data_handler if data_handler is not None else BacktestDataHandler(universe, data_sources=data_sources)
     if c["alpha"] == "topn" and signals_factory is None and alpha_factory is None:
         from qstrader.signals.momentum import MomentumSignal
@@ -414,7 +450,7 @@ def run_real(c, rng=None, signals_factory=None, alpha_factory=None, csv_dir=None
     own = csv_dir is None
     if own:
         csv_dir = tempfile.mkdtemp(prefix="qsv-sess-")
-        write_market(csv_dir, c["market"], rng, adj=c.get("adj"))
+        write_market(csv_dir, c["market"], rng, adj=c.get("adj"), intfmt=bool(c.get("intfmt")))
     out = Outcome()
     ob = Observer()
     try:
@@ -437,7 +473,7 @@ def run_real(c, rng=None, signals_factory=None, alpha_factory=None, csv_dir=None
         out.fills = [(minutes(f["t"]), f["asset"], int(f["qty"]), fx(f["px"]), fx(f["comm"])) for f in fills]
         pf = sess.broker.portfolios[sess.portfolio_id]
         out.cash = fx(pf.cash)
-        if all(e == 0 for e in c["entry"].values()):
+        if all(e == 0 for e in c["entry"].values()) and not c.get("exit"):
             # a static universe: what it yields once the backtest has used it (before, at and after the run)
             out.extra["static_universe_after"] = [list(sess.universe.get_assets(ts(t))) for t in (c["start"], (c["start"] + c["end"]) // 2, c["end"] + 1440)]
         out.holdings = dict((a, int(v["quantity"])) for a, v in pf.portfolio_to_dict().items())
@@ -582,7 +618,7 @@ def record_session_trace(c, ident, rng=None):
     the run's magnitudes would leave TLC's 32-bit integers (gross quantity x total paid per position)."""
     csv_dir = tempfile.mkdtemp(prefix="qsv-sesst-")
     try:
-        write_market(csv_dir, c["market"], rng, adj=c.get("adj"))
+        write_market(csv_dir, c["market"], rng, adj=c.get("adj"), intfmt=bool(c.get("intfmt")))
         ob = Observer()
         rec = BrokerRecorder(ob, [SYM[a] for a in ASSETS])
         with ob.installed():
